@@ -64,6 +64,7 @@ def recipes : List Recipe := [
   ⟨"BridgePrebuilder.accept_BodyNode", "ACT_BRB", [(697, "S_BRG"), (698, "ACT_ACT")]⟩,
   ⟨"OperationPrebuilder.accept_BodyNode", "ACT_OPB", [(696, "O_TFR"), (698, "ACT_ACT")]⟩,
   ⟨"DerivedAttributePrebuilder.accept_BodyNode", "ACT_DAB", [(693, "O_DBATTR"), (698, "ACT_ACT")]⟩,
+  ⟨"TransitionPrebuilder.accept_BodyNode (state action)", "ACT_SAB", [(691, "SM_ACT"), (698, "ACT_ACT")]⟩,
   ⟨"v_val + typing accept_*", "V_VAL", [(826, "ACT_BLK"), (820, "S_DT")]⟩,
   ⟨"v_var + v_int / v_ins / first assignment", "V_VAR", [(823, "ACT_BLK"), (835, "V_LOC"), (848, "S_DT")]⟩,
   ⟨"v_var", "V_LOC", [(835, "V_VAR")]⟩,
